@@ -103,7 +103,35 @@ def find_body(prog, path, impl_trait=None):
         hits = [b for b in hits if b.get("impl_trait") == impl_trait]
     if len(hits) == 1:
         return hits[0]
+    if not hits:
+        # the same item with other generic / lifetime parameters (`Writer::<'_, T>::m` vs `Writer::<'_, '_, T>::m`)
+        want = strip_generics(path)
+        hits = [b for b in prog.bodies.values() if not b.get("promoted") and strip_generics(b["path"]) == want
+                and (impl_trait is None or b.get("impl_trait") == impl_trait)]
+        if len(hits) == 1:
+            return hits[0]
     return None
+
+
+def strip_generics(path):
+    """`a::B::<'x, T>::m` -> `a::B::m` (angle brackets balanced; `<impl ...>` / `<T as Trait>` segments are kept)"""
+    out, i, n = [], 0, len(path)
+    while i < n:
+        if path.startswith("::<", i):
+            depth, j = 0, i + 2
+            while j < n:
+                if path[j] == "<":
+                    depth += 1
+                elif path[j] == ">" and path[j - 1] != "-":
+                    depth -= 1
+                    if depth == 0:
+                        break
+                j += 1
+            i = j + 1
+            continue
+        out.append(path[i])
+        i += 1
+    return "".join(out)
 
 
 def find_bodies(prog, pred):
